@@ -459,15 +459,23 @@ func ctxFieldValues(fa *ssa.FieldAddr, depth int) (vals []ssa.Value, ok bool) {
 		}
 	}
 	sitesOf := StaticSitesOf(fn)
-	if pi < 0 || len(sitesOf) == 0 {
-		return nil, false
-	}
+	var passed []ssa.Value
 	for _, site := range sitesOf {
 		args := site.Common().Args
 		if pi >= len(args) {
 			return nil, false
 		}
-		switch a := Strip(args[pi]).(type) {
+		passed = append(passed, args[pi])
+	}
+	if pi == 0 {
+		// the receiver of a method value (x.m used as a callback)
+		passed = append(passed, BoundReceiversOf(fn)...)
+	}
+	if pi < 0 || len(passed) == 0 {
+		return nil, false
+	}
+	for _, pv := range passed {
+		switch a := Strip(pv).(type) {
 		case *ssa.Alloc:
 			for _, r := range *a.Referrers() {
 				f2, isFA := r.(*ssa.FieldAddr)
@@ -688,6 +696,18 @@ func fieldName(t types.Type, i int) string {
 // FieldOf: if v is (a load of) a FieldAddr / Field, returns owner type name
 // ("pkg.T") and field name.
 func FieldOf(v ssa.Value) (owner, field string, base ssa.Value, ok bool) {
+	// a field of a context struct that stands for one value of the caller (see Strip): d.origin = &o.originState
+	if u, isU := v.(*ssa.UnOp); isU && u.Op == token.MUL {
+		if fa, isFA := u.X.(*ssa.FieldAddr); isFA {
+			if _, isPar := fa.X.(*ssa.Parameter); isPar {
+				if vals, okC := CtxFieldValues(fa); okC && len(vals) == 1 && !writtenInCallee(fa) {
+					if _, isAddr := vals[0].(*ssa.FieldAddr); isAddr {
+						v = vals[0]
+					}
+				}
+			}
+		}
+	}
 	if u, isU := v.(*ssa.UnOp); isU && u.Op == token.MUL {
 		v = u.X
 	}
